@@ -334,9 +334,11 @@ pub fn gen_seq(seed: u64, ncases: u64, maxlen: u64, zero_ok: bool, rebuilds: boo
             if r.chance(1, 8) {
                 out.push(format!("read {}", r.pick(&["snapshot", "package", "json", "display", "serde", "stats", "list", "agg"])));
             }
-            if quiet && r.chance(1, 6) {
+            if (quiet && r.chance(1, 6)) || (!quiet && r.chance(1, 25)) {
                 // a read, two amendments that move the same quantity from one order to another (every aggregate and
-                // every statistic ends where it started), a read
+                // every statistic ends where it started), a read - in sparse cases through `state`, otherwise through
+                // one of the read-only calls (snapshot, package, JSON, Display, serde), and with rebuilds a rebuild
+                // through the package / JSON road right after
                 let am: Vec<(OrderId, u64)> = lvl.iter_orders().iter()
                     .filter(|o| matches!(***o, OrderType::Standard { .. } | OrderType::PostOnly { .. } | OrderType::IcebergOrder { .. }))
                     .map(|o| (o.id(), o.visible_quantity())).collect();
@@ -349,12 +351,21 @@ pub fn gen_seq(seed: u64, ncases: u64, maxlen: u64, zero_ok: bool, rebuilds: boo
                         let d = r.range(1, (am[j].1 - lo).min(6));
                         if (total + d as u128) * (price.max(1 << 20) as u128) < (1u128 << 63) {
                             total += d as u128;
-                            out.push("state".to_string());
+                            let kinds = ["snapshot", "package", "json", "display", "serde", "list"];
+                            if quiet { out.push("state".to_string()); } else { out.push(format!("read {}", r.pick(&kinds))); }
                             for (id, n) in [(am[i].0, am[i].1 + d), (am[j].0, am[j].1 - d)] {
                                 out.push(format!("upd qty {} {}", show_id(&id), n));
                                 let _ = lvl.update_order(pricelevel::OrderUpdate::UpdateQuantity { order_id: id, new_quantity: n });
                             }
+                            if !quiet { out.push(format!("read {}", r.pick(&kinds))); }
                             out.push("state".to_string());
+                            if rebuilds && r.chance(2, 3) {
+                                out.push(format!("rebuild {}", r.pick(&["package", "json", "snapshot", "serde"])));
+                                out.push("state".to_string());
+                                let snap = lvl.snapshot();
+                                lvl = PriceLevel::from_snapshot(snap).unwrap_or_else(|_| PriceLevel::new(price));
+                                rebuilt = true;
+                            }
                             pending_delta = None;
                             continue;
                         }
@@ -786,7 +797,8 @@ pub fn gen_conc(seed: u64, ncases: u64, scheds_per_prog: u64, out: &Sink) {
 /// (six shapes: Standard; Iceberg with hidden >= display, with hidden < display, with display 0; auto-replenishing
 /// Reserve whose tranche equals its display; manual Reserve), alone or with a Standard order behind it; thread 0
 /// issues one of seven calls (add Standard / add Iceberg / amend X up, to the same value, down, to 0 / cancel X),
-/// thread 1 one of six (match 1, match exactly X's display, match 100, cancel X, amend X, list) - 504 programs.
+/// thread 1 one of seven (match 1, match exactly X's display, match 100, cancel X, amend X, list, add Iceberg) and
+/// thread 0 may also match; a seventh target shape is the Standard order amended beforehand (two tickets) - 784 programs.
 /// Each runs under every schedule with at most two context switches from a grid: thread 0 runs k steps, thread 1 runs
 /// m steps, thread 0 finishes, thread 1 finishes. quick / search: `nprogs` programs drawn without replacement, k in
 /// 0..=7, m in {1..6, 8, 10, 12, 14, 16, 40}; thorough: the shard's slice of all programs, k in 0..=8, m in 0..=16 and 40.
@@ -803,11 +815,14 @@ pub fn gen_concx(seed: u64, nprogs: u64, thorough: bool, out: &Sink) {
         mk_order(6, x, price, 3, 6, 1, Some(3), true, Side::Sell, 1, g),
         mk_order(6, x, price, 3, 6, 2, None, false, Side::Sell, 1, g),
     ];
+    // a seventh shape: the Standard order amended once before the threads start (two tickets for one order)
+    let n_shapes = xs.len() + 1;
     let yo = mk_order(0, y, price, 5, 0, 0, None, false, Side::Sell, 2, g);
     let xi = show_id(&x);
     let mut programs: Vec<(usize, bool, String, String)> = Vec::new();
-    for (ix, xo) in xs.iter().enumerate() {
-        let v = xo.visible_quantity();
+    for ix in 0..n_shapes {
+        let xo = &xs[ix % xs.len()];
+        let v = if ix >= xs.len() { 6 } else { xo.visible_quantity() };
         for with_y in [false, true] {
             let op0s = vec![
                 format!("add~{}", show_order(&mk_order(0, pool_id(50), price, 4, 0, 0, None, false, Side::Sell, 3, g))),
@@ -817,6 +832,7 @@ pub fn gen_concx(seed: u64, nprogs: u64, thorough: bool, out: &Sink) {
                 format!("amend~{}~1", xi),
                 format!("amend~{}~0", xi),
                 format!("cancel~{}", xi),
+                format!("match~2~{}", show_id(&pool_id(901))),
             ];
             let op1s = vec![
                 format!("match~1~{}", show_id(&pool_id(900))),
@@ -825,6 +841,7 @@ pub fn gen_concx(seed: u64, nprogs: u64, thorough: bool, out: &Sink) {
                 format!("cancel~{}", xi),
                 format!("amend~{}~7", xi),
                 "read~list".to_string(),
+                format!("add~{}", show_order(&mk_order(5, pool_id(51), price, 3, 2, 0, None, false, Side::Sell, 4, g))),
             ];
             for a in &op0s { for b in &op1s { programs.push((ix, with_y, a.clone(), b.clone())); } }
         }
@@ -854,7 +871,10 @@ pub fn gen_concx(seed: u64, nprogs: u64, thorough: bool, out: &Sink) {
                 out.push(format!("case p{p}-{case}"));
                 case += 1;
                 out.push(format!("new {price}"));
-                out.push(format!("add {}", show_order(&xs[*ix])));
+                out.push(format!("add {}", show_order(&xs[*ix % xs.len()])));
+                if *ix >= xs.len() {
+                    out.push(format!("upd qty {} 6", xi));
+                }
                 if *with_y {
                     out.push(format!("add {}", show_order(&yo)));
                 }
